@@ -30,28 +30,46 @@ func isDuration(t types.Type) bool { return an.IsNamed(t, "time", "Duration") }
 func interpolationArithmetic(c *core.Ctx, r *core.Report, fn *ssa.Function) {
 	key := core.FuncName(fn) + "#interpolation"
 	bad, floatDiv := 0, 0
-	an.Instrs(fn, func(in ssa.Instruction) {
-		bo, ok := in.(*ssa.BinOp)
-		if !ok || !(bo.Op == token.MUL || bo.Op == token.QUO || bo.Op == token.REM) {
-			return
+	// fn and the same-package helpers whose result feeds fn's result
+	fns := []*ssa.Function{fn}
+	seen := map[*ssa.Function]bool{fn: true}
+	for i := 0; i < len(fns) && i < 6; i++ {
+		g := fns[i]
+		for _, call := range an.AllCalls(g) {
+			cv, ok := call.(*ssa.Call)
+			t := an.Callee(call)
+			if !ok || t == nil || t.Blocks == nil || seen[t] || core.RelPkg(t) != core.RelPkg(fn) || !feedsReturn(g, cv) {
+				continue
+			}
+			seen[t] = true
+			fns = append(fns, t)
 		}
-		if !feedsReturn(fn, bo) {
-			return
-		}
-		if isIntType(bo.Type()) {
-			_, kx := bo.X.(*ssa.Const)
-			_, ky := bo.Y.(*ssa.Const)
-			if kx && ky {
+	}
+	for _, g := range fns {
+		g := g
+		an.Instrs(g, func(in ssa.Instruction) {
+			bo, ok := in.(*ssa.BinOp)
+			if !ok || !(bo.Op == token.MUL || bo.Op == token.QUO || bo.Op == token.REM) {
 				return
 			}
-			bad++
-			r.Violation(key, an.Pos(c, in), "integer %s (%s) feeds the interpolated rate: products of nanosecond offsets and rate deltas overflow int64 on long profiles, and integer quotients truncate", bo.Op, an.D().Of(bo))
-			return
-		}
-		if bo.Op == token.QUO {
-			floatDiv++
-		}
-	})
+			if !feedsReturn(g, bo) {
+				return
+			}
+			if isIntType(bo.Type()) {
+				_, kx := bo.X.(*ssa.Const)
+				_, ky := bo.Y.(*ssa.Const)
+				if kx && ky {
+					return
+				}
+				bad++
+				r.Violation(key, an.Pos(c, in), "integer %s (%s) feeds the interpolated rate: products of nanosecond offsets and rate deltas overflow int64 on long profiles, and integer quotients truncate", bo.Op, an.D().Of(bo))
+				return
+			}
+			if bo.Op == token.QUO {
+				floatDiv++
+			}
+		})
+	}
 	if bad == 0 {
 		r.Check(floatDiv >= 1, key, c.Pos(fn.Pos()), "position is a float64 quotient; no integer multiplication/division feeds the rate", "no floating-point position quotient found in the interpolation")
 	}
@@ -65,102 +83,239 @@ func c10(c *core.Ctx, r *core.Report) {
 	spkg := "internal/trigger/staged"
 
 	rule(r, "C10.R1", "stage chaining: when a stage is appended its StartTarget is the previous stored stage's EndTarget, or the constant 0 when no stage is stored yet; every parsed stage is chained exactly once, in order", func() {
-		// the chaining function: the function of the package that stores StartTarget
-		var add *ssa.Function
-		for _, fn := range c.AllFuncs {
-			if core.RelPkg(fn) != spkg {
+		calc, _ := c.Named(spkg, "RateCalculator").Underlying().(*types.Struct)
+		var list *types.Var
+		for i := 0; calc != nil && i < calc.NumFields(); i++ {
+			if _, ok := calc.Field(i).Type().Underlying().(*types.Slice); ok {
+				list = calc.Field(i)
+			}
+		}
+		if list == nil {
+			panic(core.AnchorError{What: "the stage list (slice field) of staged.RateCalculator"})
+		}
+		isList := func(v ssa.Value) bool {
+			fa, ok := an.Strip(v).(*ssa.FieldAddr)
+			return ok && an.SameField(an.FieldOfAddr(fa), list)
+		}
+		isLenList := func(v ssa.Value) bool {
+			call, ok := an.Strip(v).(*ssa.Call)
+			return ok && an.IsBuiltinCall(call, "len") && isList(call.Call.Args[0])
+		}
+		// each StartTarget store is judged from the lowest function of the package from which the whole chaining pass
+		// is visible (the element stored resolves to an element of the list being walked)
+		n, sawFirst, sawChain := 0, false, false
+		isStartStore := func(in ssa.Instruction) (*ssa.Store, *ssa.FieldAddr) {
+			st, ok := in.(*ssa.Store)
+			if !ok {
+				return nil, nil
+			}
+			fa, isFA := st.Addr.(*ssa.FieldAddr)
+			if !isFA || an.FieldOfAddr(fa).Name() != "StartTarget" || !an.IsNamed(fa.X.Type(), core.ModPath+"/"+spkg, "Stage") {
+				return nil, nil
+			}
+			return st, fa
+		}
+		complete := func(e an.Event, fa *ssa.FieldAddr) bool {
+			al, isAl := fa.X.(*ssa.Alloc)
+			if !isAl {
+				return false
+			}
+			for _, init := range an.StoresTo(al) {
+				if _, ok := (an.FV{V: init.Val, F: e.Frame}).Resolve(nil).V.(*ssa.IndexAddr); ok {
+					return true
+				}
+			}
+			return false
+		}
+		chosen := map[ssa.Instruction]*ssa.Function{}
+		depthOfRoot := map[ssa.Instruction]int{}
+		for _, root := range c.AllFuncs {
+			if core.RelPkg(root) != spkg || root.Parent() != nil {
 				continue
 			}
-			an.Instrs(fn, func(in ssa.Instruction) {
-				if st, ok := in.(*ssa.Store); ok {
-					if f := an.FieldOfAddr(st.Addr); f != nil && f.Name() == "StartTarget" && an.StructLiteralOf(st.Addr.(*ssa.FieldAddr).X) == nil || ok && func() bool {
-						f := an.FieldOfAddr(st.Addr)
-						return f != nil && f.Name() == "StartTarget"
-					}() {
-						add = fn
+			an.Flatten(root, flatDepth, nil, func(e an.Event) {
+				if _, fa := isStartStore(e.Instr); fa != nil && complete(e, fa) {
+					d := depthOf(e)
+					if cur, ok := chosen[e.Instr]; !ok || d < depthOfRoot[e.Instr] || (d == depthOfRoot[e.Instr] && root.String() < cur.String()) {
+						chosen[e.Instr], depthOfRoot[e.Instr] = root, d
 					}
 				}
 			})
 		}
-		if add == nil {
-			r.Violation("chaining", "-", "no function sets a stage's StartTarget: stages are not chained")
-			return
-		}
-		paths, err := an.DecisionPaths(add, 64)
-		if err != nil {
-			r.Undecided(core.FuncName(add)+"#paths", c.Pos(add.Pos()), "%v", err)
-			return
-		}
-		sawFirst, sawChain := false, false
-		for _, p := range paths {
-			if p.Ret == nil {
+		for _, root := range c.AllFuncs {
+			if core.RelPkg(root) != spkg || root.Parent() != nil {
 				continue
 			}
-			var last *ssa.Store
-			for _, b := range p.Blocks {
-				for _, in := range b.Instrs {
-					if st, ok := in.(*ssa.Store); ok {
-						if f := an.FieldOfAddr(st.Addr); f != nil && f.Name() == "StartTarget" {
-							last = st
+			var appends []an.Event
+			an.Flatten(root, flatDepth, nil, func(e an.Event) {
+				if call, ok := e.Instr.(*ssa.Call); ok && an.IsBuiltinCall(call, "append") && isList(call.Call.Args[0]) {
+					appends = append(appends, e)
+				}
+			})
+			an.Flatten(root, flatDepth, nil, func(e an.Event) {
+				st, fa := isStartStore(e.Instr)
+				if st == nil {
+					return
+				}
+				if r0, ok := chosen[e.Instr]; ok && r0 != root {
+					return
+				}
+				if _, ok := chosen[e.Instr]; !ok && e.Frame.Parent != nil {
+					return // no function sees the whole pass: judged once, in its own function
+				}
+				n++
+				key := core.FuncName(e.Instr.Parent())
+				// which case is this store made in?
+				empty, known := false, false
+				for _, fg := range an.GuardsOfEvent(e) {
+					g := fg.Guard
+					bo, isBin := g.Cond.(*ssa.BinOp)
+					if !isBin || !isLenList(g.T(bo.X)) {
+						continue
+					}
+					k, isK := constInt(bo.Y)
+					if !isK {
+						continue
+					}
+					known = true
+					switch {
+					case bo.Op == token.EQL && k == 0, bo.Op == token.LSS && k == 1, bo.Op == token.LEQ && k == 0:
+						empty = g.Polarity
+					case bo.Op == token.NEQ && k == 0, bo.Op == token.GTR && k == 0, bo.Op == token.GEQ && k == 1:
+						empty = !g.Polarity
+					default:
+						known = false
+					}
+				}
+				val := an.EventFV(e, st.Val).Resolve(nil).V
+				d := an.D().Of(val)
+				if !known {
+					// a default of 0 set first and overwritten under "a stage is already stored": every way from here to
+					// the append passes that test
+					if k, isK := val.(*ssa.Const); isK && k.Value != nil && k.Int64() == 0 {
+						covered := false
+						for _, b := range st.Parent().Blocks {
+							iff, isIf := b.Instrs[len(b.Instrs)-1].(*ssa.If)
+							if !isIf {
+								continue
+							}
+							bo, isBin := iff.Cond.(*ssa.BinOp)
+							if !isBin || !isLenList(bo.X) {
+								continue
+							}
+							for _, ap := range appends {
+								if ap.Instr.Parent() == st.Parent() && !reachesAvoiding(st.Block(), ap.Instr, iff) {
+									covered = true
+								}
+							}
+						}
+						if covered {
+							sawFirst = true
+							r.OK(key+"#first", an.Pos(c, st), "start target defaults to 0 and is overwritten only when a stage is already stored")
+							return
+						}
+					}
+					r.Undecided(key+"#emptiness", an.Pos(c, st), "a StartTarget is set without a test whether a stage is already stored")
+					return
+				}
+				if empty {
+					sawFirst = true
+					k, isK := val.(*ssa.Const)
+					r.Check(isK && k.Value != nil && k.Int64() == 0, key+"#first", an.Pos(c, st), "first stage starts at 0", "the first stage starts at "+d+" instead of 0")
+				} else {
+					sawChain = true
+					okChain := false
+					if efa, isE := val.(*ssa.FieldAddr); isE && an.FieldOfAddr(efa).Name() == "EndTarget" {
+						if ia, isIA := an.Strip(efa.X).(*ssa.IndexAddr); isIA && isList(ia.X) {
+							if bo, isBin := an.Strip(ia.Index).(*ssa.BinOp); isBin && bo.Op == token.SUB && isLenList(bo.X) {
+								if k, isK := constInt(bo.Y); isK && k == 1 {
+									okChain = true
+								}
+							}
+						}
+					}
+					r.Check(okChain, key+"#chain", an.Pos(c, st), "StartTarget ← "+d, "a stage's start target is "+d+", not the previous stage's end target: the profile jumps at the stage boundary")
+				}
+				// the stage whose start was set is the one appended, afterwards
+				appended := false
+				for _, ap := range appends {
+					for _, el := range varargElems(ap.Instr.(*ssa.Call).Call.Args[1]) {
+						if ld, isLd := el.(*ssa.UnOp); isLd && ld.Op == token.MUL && ld.X == fa.X {
+							apIn := ap.Instr
+							if apIn.Parent() == st.Parent() {
+								// no way from the store to an exit that misses the append
+								appended = an.EscapesWithout(st, func(in ssa.Instruction) bool { return in == apIn }) == nil
+							} else {
+								appended = an.Before(e, ap)
+							}
 						}
 					}
 				}
-			}
-			empty, known := false, false
-			for _, l := range p.Lits {
-				bo, ok := l.Cond.(*ssa.BinOp)
-				if !ok || an.D().Of(bo.X) != "len($s.stages)" {
-					continue
+				r.Check(appended, key+"#appended"+map[bool]string{true: "-first", false: "-chain"}[empty], an.Pos(c, st), "the stage is appended to the list after its start target was set", "the stage whose start target is set here is not the one appended to the list afterwards")
+				// it is the loop's element of the list given: every stage once, in order
+				if al, isAl := fa.X.(*ssa.Alloc); isAl {
+					for _, init := range an.StoresTo(al) {
+						src := an.FV{V: init.Val, F: e.Frame}.Resolve(nil)
+						ia, isIA := src.V.(*ssa.IndexAddr)
+						okAll := isIA && isCounter(ia.Index)
+						if okAll {
+							_, okAll = upperGuard(ia.Block(), ia.Index, ia.X, func(a, b ssa.Value) bool { return a == b })
+						}
+						r.Check(okAll, key+"#all-stages"+map[bool]string{true: "-first", false: "-chain"}[empty], an.Pos(c, init), "every stage of the list is chained exactly once, in list order", "the stage being chained is "+an.D().Of(src.V)+", not the element of a single forward pass over the stages given")
+					}
 				}
-				k, isK := constInt(bo.Y)
-				if !isK {
-					continue
-				}
-				known = true
-				switch {
-				case bo.Op == token.EQL && k == 0:
-					empty = l.Val
-				case bo.Op == token.NEQ && k == 0, bo.Op == token.GTR && k == 0, bo.Op == token.GEQ && k == 1:
-					empty = !l.Val
-				case bo.Op == token.LSS && k == 1, bo.Op == token.LEQ && k == 0:
-					empty = l.Val
-				default:
-					known = false
-				}
-			}
-			if !known {
-				r.Undecided(core.FuncName(add)+"#emptiness", an.Pos(c, p.Ret), "a path of the chaining function does not test whether a stage is already stored")
+			})
+		}
+		// every element is appended exactly once: in the function holding the append, every way through one pass
+		// (the whole function, or one iteration of the loop around the append) executes it once
+		for _, fn := range c.AllFuncs {
+			if core.RelPkg(fn) != spkg {
 				continue
 			}
-			val := "<never set>"
-			if last != nil {
-				val = an.D().Of(last.Val)
-			}
-			if empty {
-				sawFirst = true
-				r.Check(val == "0" || last == nil && false, core.FuncName(add)+"#first", an.Pos(c, p.Ret), "first stage starts at 0", "the first stage starts at "+val+" instead of 0")
-			} else {
-				sawChain = true
-				r.Check(val == "$s.stages[(len($s.stages) - 1)].EndTarget", core.FuncName(add)+"#chain", an.Pos(c, p.Ret), "StartTarget ← "+val, "a stage's start target is "+val+", not the previous stage's end target: the profile jumps at the stage boundary")
+			for _, call := range an.AllCalls(fn) {
+				cv, ok := call.(*ssa.Call)
+				if !ok || !an.IsBuiltinCall(cv, "append") || !isList(cv.Call.Args[0]) {
+					continue
+				}
+				w := func(in ssa.Instruction) an.Interval {
+					if in == ssa.Instruction(cv) {
+						return an.Interval{Lo: 1, Hi: 1}
+					}
+					return an.Interval{}
+				}
+				key := core.FuncName(fn) + "#append-once"
+				good := true
+				if an.InLoop(cv) {
+					head := loopHeaderOf(cv)
+					for _, succ := range head.Succs {
+						if loop, _ := an.NaturalLoopOf(cv.Block()); loop == nil || !loop[succ] {
+							continue
+						}
+						for _, ex := range an.PathCountUntil(succ.Instrs[0], w, map[*ssa.BasicBlock]bool{head: true}) {
+							if ex.Count.Lo != 1 || ex.Count.Hi != 1 {
+								good = false
+								r.Violation(key, an.Pos(c, ex.Instr), "in one pass of the chaining loop a stage is appended %s times (expected exactly once): a stage of the profile is left out or duplicated", ex.Count)
+							}
+						}
+					}
+				} else {
+					for _, ex := range an.PathCount(fn, w) {
+						if _, isRet := ex.Instr.(*ssa.Return); isRet && (ex.Count.Lo != 1 || ex.Count.Hi != 1) {
+							good = false
+							r.Violation(key, an.Pos(c, ex.Instr), "on a path to this return the stage is appended %s times (expected exactly once): a stage of the profile is left out or duplicated", ex.Count)
+						}
+					}
+				}
+				if good {
+					r.OK(key, an.Pos(c, cv), "every way through one chaining pass appends the stage exactly once")
+				}
 			}
 		}
-		r.Check(sawFirst && sawChain, core.FuncName(add)+"#both", c.Pos(add.Pos()), "both the first-stage and the chained case are handled", "chaining does not distinguish the first stage from later ones")
-		// every parsed stage is chained once, in order
-		sites := an.CallSitesOf(c, add)
-		okAll := len(sites) == 1
-		for _, call := range sites {
-			arg := an.Strip(call.Common().Args[1])
-			ia, isIA := arg.(*ssa.IndexAddr)
-			ok := isIA && isCounter(ia.Index)
-			if ok {
-				_, ok = upperGuard(call.Block(), ia.Index, ia.X, func(a, b ssa.Value) bool { return a == b })
-			}
-			if ok && an.OnCycleAvoiding(call, loopHeaderOf(call)) {
-				ok = false
-			}
-			okAll = okAll && ok
+		if n == 0 {
+			r.Violation("chaining", "-", "no function sets a stage's StartTarget: stages are not chained")
+			return
 		}
-		r.Check(okAll, core.FuncName(add)+"#all-stages", c.Pos(add.Pos()), "every stage of the list is chained exactly once, in list order", "the chaining function is not applied once to every stage in order")
+		r.Check(sawFirst && sawChain, "chaining#both", "-", "both the first-stage and the chained case are handled", "chaining does not distinguish the first stage from later ones")
 	})
 
 	rule(r, "C10.R2", "MaxDuration accumulates every stage's Duration exactly once (an unconditional += in a loop over all stages); CalculateStagedRate reports it as Rates.Duration and the staged trigger's Duration is that field", func() {
@@ -246,36 +401,97 @@ func c10(c *core.Ctx, r *core.Report) {
 
 	rate := c.MustFn(spkg, "RateCalculator.Rate")
 	var rampFn *ssa.Function
-	for _, fn := range c.AllFuncs {
-		if core.RelPkg(fn) == "internal/trigger/ramp" && fn.Parent() != nil && fn.Signature.Results().Len() == 1 && fn.Signature.Params().Len() == 1 &&
-			an.IsNamed(fn.Signature.Params().At(0).Type(), "time", "Time") && isIntType(fn.Signature.Results().At(0).Type()) {
+	for _, fn := range an.FuncsOfType(c, apiPkg, "RateFunction") {
+		if core.RelPkg(fn) == "internal/trigger/ramp" {
 			rampFn = fn
 		}
 	}
+	// roles in the staged calculator: the cursor is its int field, the stage list its slice field, the stage start its
+	// time.Time field; the receiver and the time parameter may have any name
+	calcT, _ := c.Named(spkg, "RateCalculator").Underlying().(*types.Struct)
+	var curFld, stagesFld *types.Var
+	for i := 0; calcT != nil && i < calcT.NumFields(); i++ {
+		f := calcT.Field(i)
+		if isIntType(f.Type()) {
+			curFld = f
+		}
+		if _, ok := f.Type().Underlying().(*types.Slice); ok {
+			stagesFld = f
+		}
+	}
+	isLoadOf := func(v ssa.Value, fld *types.Var) bool {
+		fa, ok := an.Strip(v).(*ssa.FieldAddr)
+		return ok && an.SameField(an.FieldOfAddr(fa), fld)
+	}
+	// lenStagesPlus(v) = k when v is len(stages)+k
+	lenStagesPlus := func(v ssa.Value) (int64, bool) {
+		v = an.Strip(v)
+		off := int64(0)
+		if bo, ok := v.(*ssa.BinOp); ok && (bo.Op == token.SUB || bo.Op == token.ADD) {
+			if k, isK := constInt(bo.Y); isK {
+				if bo.Op == token.SUB {
+					k = -k
+				}
+				off, v = k, an.Strip(bo.X)
+			}
+		}
+		call, ok := v.(*ssa.Call)
+		if !ok || !an.IsBuiltinCall(call, "len") || !isLoadOf(call.Call.Args[0], stagesFld) {
+			return 0, false
+		}
+		return off, true
+	}
+	// pastEnd: the guard states cursor >= len(stages)
+	pastEnd := func(g an.Guard) bool {
+		bo, ok := g.Cond.(*ssa.BinOp)
+		if !ok || !isLoadOf(g.T(bo.X), curFld) {
+			return false
+		}
+		k, ok := lenStagesPlus(g.T(bo.Y))
+		if !ok {
+			return false
+		}
+		switch {
+		case bo.Op == token.GTR && k == -1, bo.Op == token.GEQ && k == 0:
+			return g.Polarity
+		case bo.Op == token.LEQ && k == -1, bo.Op == token.LSS && k == 0:
+			return !g.Polarity
+		}
+		return false
+	}
 
 	rule(r, "C10.R3", "the stage cursor only moves forward (stores: 0 when unset, and current+1); every return taken with the cursor past the last stage returns the constant 0; the ramp's after-end branch returns the constant 0", func() {
-		cur := c.Field(spkg, "RateCalculator", "current")
+		if curFld == nil || stagesFld == nil {
+			panic(core.AnchorError{What: "cursor (int) and stage list (slice) fields of staged.RateCalculator"})
+		}
 		n := 0
 		for _, fn := range c.AllFuncs {
+			if !core.InModule(fn) {
+				continue
+			}
 			an.Instrs(fn, func(in ssa.Instruction) {
 				st, ok := in.(*ssa.Store)
-				if !ok || !an.SameField(an.FieldOfAddr(st.Addr), cur) {
+				if !ok || !an.SameField(an.FieldOfAddr(st.Addr), curFld) {
 					return
 				}
 				n++
 				d := an.D().Of(st.Val)
-				okk := d == "($s.current + 1)" || d == "0" || (d == "-1" && fn.Name() == "NewRateCalculator")
-				if an.StructLiteralOf(st.Addr.(*ssa.FieldAddr).X) != nil && d == "-1" {
-					okk = true
+				okk := false
+				switch v := an.Strip(st.Val).(type) {
+				case *ssa.Const:
+					okk = v.Value != nil && (v.Int64() == 0 || (v.Int64() == -1 && an.StructLiteralOf(st.Addr.(*ssa.FieldAddr).X) != nil))
+				case *ssa.BinOp:
+					k, isK := constInt(v.Y)
+					okk = v.Op == token.ADD && isK && k == 1 && isLoadOf(v.X, curFld)
 				}
-				r.Check(okk, core.FuncName(fn)+"#current="+d, an.Pos(c, in), "cursor store "+d, "the stage cursor is set to "+d+": it can move backwards or skip stages")
+				r.Check(okk, core.FuncName(fn)+"#cursor="+d, an.Pos(c, in), "cursor store "+d, "the stage cursor is set to "+d+": it can move backwards or skip stages")
 			})
 		}
 		r.Floor("stores to the stage cursor", n, 2)
 		past := 0
 		for _, ret := range an.Returns(rate) {
 			for _, g := range an.GuardsOf(ret.Block()) {
-				if pastEndGuard(g) {
+				if pastEnd(g) {
 					past++
 					d := an.D().Of(ret.Results[0])
 					r.Check(d == "0", sprintf("RateCalculator.Rate#past-end%d", past), an.Pos(c, ret), "returns 0 once all stages elapsed", "after all stages have elapsed the staged profile returns "+d+" instead of 0")
@@ -283,7 +499,23 @@ func c10(c *core.Ctx, r *core.Report) {
 				}
 			}
 		}
-		r.Floor("past-the-end returns", past, 2)
+		r.Floor("past-the-end returns", past, 1)
+		// … and the stage list is only indexed with the cursor where the cursor is known to be inside it
+		for _, e := range flatIndexings(rate, stagesFld) {
+			ia := e.Instr.(*ssa.IndexAddr)
+			if !isLoadOf(an.EventFV(e, ia.Index).Resolve(nil).V, curFld) {
+				continue
+			}
+			inside := false
+			for _, g := range an.GuardsOfEvent(e) {
+				ng := g.Guard
+				ng.Polarity = !ng.Polarity
+				if pastEnd(ng) {
+					inside = true
+				}
+			}
+			r.Check(inside, "RateCalculator.Rate#cursor-inside@"+core.FuncName(e.Instr.Parent()), an.Pos(c, e.Instr), "indexed with the cursor only under cursor < len(stages)", "the stage list is indexed with the cursor where it may be past the last stage")
+		}
 		if rampFn == nil {
 			r.Undecided("ramp#closure", "-", "ramp rate closure not found")
 			return
@@ -291,13 +523,18 @@ func c10(c *core.Ctx, r *core.Report) {
 		after := 0
 		for _, ret := range an.Returns(rampFn) {
 			for _, g := range an.GuardsOf(ret.Block()) {
-				gd := an.D().Of(g.Cond)
-				if strings.Contains(gd, "(time.Time).Before(") && g.Polarity {
-					after++
-					d := an.D().Of(ret.Results[0])
-					r.Check(d == "0", "ramp#after-end", an.Pos(c, ret), "the ramp returns 0 after its duration", "after the ramp duration the ramp returns "+d+" instead of 0")
-					r.Check(strings.Contains(gd, "(time.Time).Add(") && strings.Contains(stripCaret(gd), "$duration") && strings.HasSuffix(stripCaret(gd), "$now)"), "ramp#end-test", an.Pos(c, g.If), "end test is start+duration Before now", "the ramp's end test is "+gd+", not startTime.Add(duration).Before(now)")
+				call, isCall := an.Strip(g.Cond).(*ssa.Call)
+				if !isCall || !isTimeMethod(an.Callee(call), "Time", "Before") || !g.Polarity {
+					continue
 				}
+				after++
+				d := an.D().Of(ret.Results[0])
+				r.Check(d == "0", "ramp#after-end", an.Pos(c, ret), "the ramp returns 0 after its duration", "after the ramp duration the ramp returns "+d+" instead of 0")
+				// start.Add(duration).Before(now): the receiver is an Add of a duration onto the start, the argument the time parameter
+				addCall, isAdd := an.Strip(call.Call.Args[0]).(*ssa.Call)
+				_, argIsParam := an.Strip(call.Call.Args[1]).(*ssa.Parameter)
+				okEnd := isAdd && isTimeMethod(an.Callee(addCall), "Time", "Add") && isDuration(addCall.Call.Args[1].Type()) && argIsParam && an.Strip(call.Call.Args[1]).(*ssa.Parameter).Parent() == rampFn
+				r.Check(okEnd, "ramp#end-test", an.Pos(c, g.If), "end test is start+duration Before now", "the ramp's end test is "+an.D().Of(g.Cond)+", not startTime.Add(duration).Before(now)")
 			}
 		}
 		r.Floor("ramp after-end returns", after, 1)
@@ -313,43 +550,70 @@ func c10(c *core.Ctx, r *core.Report) {
 	})
 
 	rule(r, "C10.R5", "a stage is left only when the elapsed time since its start reaches its Duration: the cursor is advanced under (now − start) + c > Duration with c ≤ 1 ns, or (now − start) ≥ Duration", func() {
-		cur := c.Field(spkg, "RateCalculator", "current")
 		n := 0
-		for _, st := range (cell{name: "current", fld: cur}).stores(rate) {
-			bo, isAdd := st.Val.(*ssa.BinOp)
-			if !isAdd || bo.Op != token.ADD {
-				continue
+		var incs []an.Event
+		an.Flatten(rate, flatDepth, nil, func(e an.Event) {
+			if st, ok := e.Instr.(*ssa.Store); ok && an.SameField(an.FieldOfAddr(st.Addr), curFld) {
+				if bo, isAdd := an.Strip(st.Val).(*ssa.BinOp); isAdd && bo.Op == token.ADD {
+					incs = append(incs, e)
+				}
 			}
+		})
+		for _, e := range incs {
 			// the comparison of elapsed time with the stage's duration among the guards of the increment
-			for _, g := range an.GuardsOf(st.Block()) {
+			for _, fg := range an.GuardsOfEvent(e) {
+				g := fg.Guard
 				cmp, ok := g.Cond.(*ssa.BinOp)
 				if !ok {
 					continue
 				}
-				d := an.D().Of(cmp)
-				if !strings.Contains(d, ".Duration") || !strings.Contains(d, "(time.Time).Sub(") {
+				isDur := func(v ssa.Value) bool {
+					fld, _ := an.TerminalField(g.T(v))
+					return fld != nil && fld.Name() == "Duration" && isDuration(fld.Type())
+				}
+				hasSub := func(v ssa.Value) (ssa.Value, int64, bool) {
+					// (now − start) + k
+					v = an.Strip(g.T(v))
+					slack := int64(0)
+					if add, isAdd := v.(*ssa.BinOp); isAdd && add.Op == token.ADD {
+						if k, isK := constInt(add.Y); isK {
+							slack, v = k, an.Strip(add.X)
+						} else if k, isK := constInt(add.X); isK {
+							slack, v = k, an.Strip(add.Y)
+						} else {
+							return nil, 0, false
+						}
+					}
+					call, isCall := v.(*ssa.Call)
+					if !isCall || !isTimeMethod(an.Callee(call), "Time", "Sub") {
+						return nil, 0, false
+					}
+					return call, slack, true
+				}
+				lhs, rhs, op := cmp.X, cmp.Y, cmp.Op
+				if isDur(lhs) && !isDur(rhs) {
+					lhs, rhs, op = rhs, lhs, flipOp[op]
+				}
+				subV, slack, okSub := hasSub(lhs)
+				if !isDur(rhs) || !okSub {
 					continue
 				}
 				n++
-				lhs, rhs, op := cmp.X, cmp.Y, cmp.Op
-				if strings.Contains(an.D().Of(lhs), ".Duration") && !strings.Contains(an.D().Of(rhs), ".Duration") {
-					lhs, rhs, op = rhs, lhs, flipOp[op]
-				}
+				d := an.D().Of(cmp)
 				if !g.Polarity {
 					op = map[token.Token]token.Token{token.GTR: token.LEQ, token.GEQ: token.LSS, token.LSS: token.GEQ, token.LEQ: token.GTR}[op]
 				}
-				slack := int64(0)
-				okShape := true
-				if add, isAdd := lhs.(*ssa.BinOp); isAdd && add.Op == token.ADD {
-					if k, isK := constInt(add.Y); isK {
-						slack, lhs = k, add.X
-					} else if k, isK := constInt(add.X); isK {
-						slack, lhs = k, add.Y
-					} else {
-						okShape = false
-					}
+				// elapsed = <time parameter>.Sub(<stage start field>); duration = stages[cursor].Duration
+				sub := subV.(*ssa.Call)
+				_, nowIsParam := an.Strip(g.T(sub.Call.Args[0])).(*ssa.Parameter)
+				startFld, owner := an.TerminalField(g.T(sub.Call.Args[1]))
+				okShape := nowIsParam && startFld != nil && an.IsNamed(owner, core.ModPath+"/"+spkg, "RateCalculator") && an.IsNamed(startFld.Type(), "time", "Time")
+				if fa, isFA := an.Strip(g.T(rhs)).(*ssa.FieldAddr); isFA {
+					ia, isIA := an.Strip(fa.X).(*ssa.IndexAddr)
+					okShape = okShape && isIA && isLoadOf(ia.X, stagesFld) && isLoadOf(ia.Index, curFld)
+				} else {
+					okShape = false
 				}
-				okShape = okShape && strings.HasPrefix(an.D().Of(lhs), "(time.Time).Sub($now, $s.start)") && strings.HasSuffix(an.D().Of(rhs), "$s.stages[$s.current].Duration")
 				switch op {
 				case token.GTR:
 					okShape = okShape && slack <= 1 && slack >= 0
@@ -365,23 +629,19 @@ func c10(c *core.Ctx, r *core.Report) {
 	})
 }
 
-// pastEndGuard: the guard states that the stage cursor is past the last stage.
-func pastEndGuard(g an.Guard) bool {
-	bo, ok := g.Cond.(*ssa.BinOp)
-	if !ok {
-		return false
-	}
-	x, y := an.D().Of(bo.X), an.D().Of(bo.Y)
-	if x != "$s.current" {
-		return false
-	}
-	switch {
-	case y == "(len($s.stages) - 1)" && bo.Op == token.GTR, y == "len($s.stages)" && bo.Op == token.GEQ:
-		return g.Polarity
-	case y == "(len($s.stages) - 1)" && bo.Op == token.LEQ, y == "len($s.stages)" && bo.Op == token.LSS:
-		return !g.Polarity
-	}
-	return false
+// flatIndexings lists the IndexAddr instructions on the given slice field reached from root (through helpers).
+func flatIndexings(root *ssa.Function, fld *types.Var) []an.Event {
+	var out []an.Event
+	an.Flatten(root, flatDepth, nil, func(e an.Event) {
+		ia, ok := e.Instr.(*ssa.IndexAddr)
+		if !ok {
+			return
+		}
+		if fa, isFA := an.Strip(ia.X).(*ssa.FieldAddr); isFA && an.SameField(an.FieldOfAddr(fa), fld) {
+			out = append(out, e)
+		}
+	})
+	return out
 }
 
 func phiCycle(p *ssa.Phi, v ssa.Value) bool {
